@@ -285,7 +285,7 @@ namespace
                 else if (k < 89) p.ops.push_back({8, r.range(1, tier == THOROUGH ? 40 : 16)});
                 else if (k < 91) p.ops.push_back({9});
                 else if (k < 93) p.ops.push_back({10});
-                else p.ops.push_back({11});
+                else p.ops.push_back({11, (int64_t)r.below(1000)});
             }
             return p;
         }
@@ -443,6 +443,29 @@ namespace
                         tr.ev("clear");
                         break;
                     case 11:
+                        // DMA style on the typed ring: construct at head_place() and publish with move_head_one(); consume
+                        // by reading tail() and move_tail_one(); get(index) addresses the raw slot
+                        if (mod(arg(o, 1), 2) == 0)
+                        {
+                            if (m.size() < (size_t)cap)
+                            {
+                                T v = val(arg(o, 1), 3);
+                                int hi = rg.head_index();
+                                rg.head_place() = v;
+                                if (rg.get(hi) != v) violate("C03/get", "get(head_index) does not address head_place()");
+                                rg.move_head_one();
+                                m.push_back(v);
+                                hist.push_back(v);
+                                pushed++;
+                                probe("typed_dma_push");
+                            }
+                        }
+                        else if (!m.empty())
+                        {
+                            if (rg.tail() != m.front() || rg.get(rg.tail_index()) != m.front()) violate("C03/tail", "tail()/get(tail_index) differ from the oldest element");
+                            rg.move_tail_one();
+                            m.pop_front();
+                        }
                         break;
                     }
                     if (rg.head_index() < h0 || rg.tail_index() < t0) { wrapped = true; probe("wrapped"); }
